@@ -20,6 +20,9 @@ func hInterleaved(a, b Serializer, tm map[string]reflect.Type, nm map[string]str
 	wantB, err := ToBytes(y, nm)
 	vAssume(err == nil)
 
+	permB := refCat(refClassDef("ZOuter", []string{"z", "p", "in", "a"}), []byte{0x60}, refLong(3),
+		refClassDef("ZInner", []string{"s", "n"}), []byte{0x61}, refStr("p"), refInt(2),
+		[]byte{0x61}, refStr("i"), refInt(1), refInt(y.A))
 	wa, wb := &vBufWriter{}, &vBufWriter{}
 	oneShot := vChoice("a3", 2) == 0
 	stepA := func(i int) {
@@ -51,7 +54,8 @@ func hInterleaved(a, b Serializer, tm map[string]reflect.Type, nm map[string]str
 			vAssert("B1-writeto", b.WriteTo(wb, y) == nil)
 			vAssert("B-stream-as-alone", eqBytes(wb.b, wantB))
 		case 1:
-			o, err := b.ToObject(wantB)
+			// B's peer lists the fields of both classes in another order than A's stream does
+			o, err := b.ToObject(permB)
 			g, ok := o.(*ZOuter)
 			vAssert("B2-value", err == nil && ok && g != nil && eqZOuter(y, g))
 		}
